@@ -4,14 +4,18 @@ package main
 // check (path in VF_E8_N2H_BIN): main() builds the http.Client, go-nsq's Consumer applies the response
 // rule, nothing of either is re-implemented here. A source stub nsqd delivers one message at a time and
 // records the FIN / REQ the tool answers; the destinations are scripted endpoints /e0 … /e4 of one HTTP
-// stub (status + optional Location per endpoint, per message) plus endpoint 5, a raw listener that reads
-// the request and hangs up (transport error, but the request is *seen*). Every request that reaches an
-// endpoint is logged with its method and the message bytes it carries (POST body; GET: the `d` query value,
-// "none" when the parameter is absent).
+// stub (status + optional Location per endpoint, per message; /e6 … /e11 exist for long chains) plus endpoint 5,
+// a raw listener that reads the request and hangs up (transport error, but the request is *seen*). A scripted
+// answer is `status`, `status>k` (Location names endpoint k, WITHOUT the query of the request it answers) or
+// `status>kq` (Location = endpoint k + the query of the request: for the GET publisher the message travels there).
+// Every request that reaches an endpoint is logged with its method and the message bytes it carries (POST body;
+// GET: the `d` query value, "none" when the parameter is absent).
 //
-// Output: ops `rd <follow> <mode> <naddr> <post> <counter> <id> <body> <world>` for the Lean driver
-// (Nsq.Model.RelayRedirect.stepVia) and the observed line `<fin|req> | <wire requests>`; `follow` is PROBED
-// on the binary (does a `307 Location:` answer produce a second request?) and printed as REDIRECT-PROBE.
+// Output: ops `rd <client> <mode> <naddr> <post> <counter> <id> <body> <world>` for the Lean driver
+// (Nsq.Model.RelayRedirect.stepVia) and the observed line `<fin|req> | <wire requests>`; `client` is PROBED on the
+// binary with two POSTs (does a `307 Location:` answer produce a second request? does a `302 Location:` answer?):
+// 0 = follows neither (fix F45, checkNever), 2 = follows the 307 only (fix F45b, checkSameMethod), 1 = follows both
+// (no CheckRedirect, checkDefault), 3 = follows the 302 only (no model); printed as REDIRECT-PROBE.
 
 import (
 	"bufio"
@@ -39,7 +43,7 @@ type vfRdWire struct {
 
 type vfRdStub struct {
 	mu     sync.Mutex
-	script []string // per endpoint: "200", "302>1", "302", …
+	script []string // per endpoint: "200", "302>1", "307>1q", "302", …
 	wire   []vfRdWire
 	hang   string // host:port of endpoint 5
 	base   string // http://host:port of endpoints 0..4
@@ -73,14 +77,21 @@ func (s *vfRdStub) ServeHTTP(w http.ResponseWriter, r *http.Request) {
 	s.mu.Unlock()
 	if loc != "" {
 		var t int
+		q := ""
+		if strings.HasSuffix(loc, "q") { // the Location repeats the query of the request it answers
+			loc = strings.TrimSuffix(loc, "q")
+			if r.URL.RawQuery != "" {
+				q = "?" + r.URL.RawQuery
+			}
+		}
 		fmt.Sscanf(loc, "%d", &t)
 		switch {
 		case t == 5:
-			w.Header().Set("Location", "http://"+s.hang+"/e5")
+			w.Header().Set("Location", "http://"+s.hang+"/e5"+q)
 		case t%2 == 0:
-			w.Header().Set("Location", fmt.Sprintf("/e%d", t)) // relative
+			w.Header().Set("Location", fmt.Sprintf("/e%d%s", t, q)) // relative
 		default:
-			w.Header().Set("Location", fmt.Sprintf("%s/e%d", s.base, t)) // absolute
+			w.Header().Set("Location", fmt.Sprintf("%s/e%d%s", s.base, t, q)) // absolute
 		}
 	}
 	var c int
@@ -117,27 +128,79 @@ type vfRdCase struct {
 	post  bool
 	mode  string // rr | all
 	naddr int
-	world []string // answers of endpoints 0..4 (endpoint 5 is always "x")
+	world []string // answers of endpoints 0..11 (endpoint 5 is always "x")
 	body  []byte
 }
 
-func vfRdGenWorld(r *vfRand, class int) []string {
+const vfRdEndpoints = 12
+
+// vfRdNorm pads a world given for endpoints 0..k to the 12 slots (slot 5 = the hang-up endpoint)
+func vfRdNorm(w []string) []string {
+	out := make([]string, vfRdEndpoints)
+	for i := range out {
+		out[i] = "500"
+	}
+	copy(out, w)
+	out[5] = "x"
+	return out
+}
+
+func vfRdGenWorld(r *vfRand, class int, post bool) []string {
 	plain := []string{"200", "200", "200", "201", "204", "299", "300", "304", "400", "404", "500", "503"}
 	redir := []string{"301", "302", "303", "307", "308"}
-	w := make([]string, 5)
+	w := make([]string, vfRdEndpoints)
+	q := func() string { // the Location keeps the query in about half of the cases
+		if r.Intn(2) == 0 {
+			return "q"
+		}
+		return ""
+	}
+	if class == 3 {
+		// a chain through distinct endpoints 0,1,2,3,4,6,…,11 of 2..11 redirects that keep the method (POST: 307/308;
+		// GET: any redirect status), ended by a plain answer; sometimes one hop changes the method / drops the query
+		order := []int{0, 1, 2, 3, 4, 6, 7, 8, 9, 10, 11}
+		for i := range w {
+			w[i] = plain[r.Intn(len(plain))]
+		}
+		n := 2 + r.Intn(10)
+		if r.Intn(3) == 0 {
+			n = 9 + r.Intn(2) // at the limit: the 10th request is the last one the client makes
+		}
+		qq := "q"
+		if r.Intn(4) == 0 {
+			qq = ""
+		}
+		for i := 0; i < n && i+1 < len(order); i++ {
+			code := []string{"307", "308"}[r.Intn(2)]
+			if !post {
+				code = redir[r.Intn(len(redir))]
+			}
+			hop := qq
+			if r.Intn(12) == 0 {
+				code, hop = redir[r.Intn(3)], q()
+			}
+			w[order[i]] = fmt.Sprintf("%s>%d%s", code, order[i+1], hop)
+		}
+		if r.Intn(2) == 0 && n+0 < len(order) {
+			w[order[n]] = "200"
+		}
+		w[5] = "x"
+		return w
+	}
 	for i := range w {
 		switch x := r.Intn(100); {
 		case x < 45-class*10: // class 0: redirect-heavy
 			w[i] = plain[r.Intn(len(plain))]
 		case x < 85:
-			w[i] = fmt.Sprintf("%s>%d", redir[r.Intn(len(redir))], r.Intn(6))
+			w[i] = fmt.Sprintf("%s>%d%s", redir[r.Intn(len(redir))], r.Intn(vfRdEndpoints), q())
 		case x < 90:
 			w[i] = redir[r.Intn(len(redir))] // a redirect status without Location
 		default:
 			// a Location on a status that is not a redirect (201 Created, 300, 304, 200): never followed
-			w[i] = fmt.Sprintf("%s>%d", []string{"201", "300", "304", "200", "305", "404"}[r.Intn(6)], r.Intn(6))
+			w[i] = fmt.Sprintf("%s>%d%s", []string{"201", "300", "304", "200", "305", "404"}[r.Intn(6)], r.Intn(vfRdEndpoints), q())
 		}
 	}
+	w[5] = "x"
 	return w
 }
 
@@ -150,7 +213,7 @@ func TestVerifN2HRedirectBin(t *testing.T) {
 	defer out.Close()
 	r := vfNewRand(0xC3C3)
 	n := vfEnvInt("VERIF_N", 160)
-	stub := &vfRdStub{script: make([]string, 5)}
+	stub := &vfRdStub{script: make([]string, vfRdEndpoints)}
 	srv := httptest.NewServer(stub)
 	defer srv.Close()
 	stub.base = srv.URL
@@ -172,12 +235,13 @@ func TestVerifN2HRedirectBin(t *testing.T) {
 		var na int
 		fmt.Sscanf(f[2], "%d", &na)
 		w := strings.Split(f[3], ",")
-		for len(w) < 5 {
-			w = append(w, "500")
+		if len(w) > vfRdEndpoints || (len(w) > 5 && w[5] != "x") {
+			fmt.Printf("REDIRECT-ERROR corpus line `%s`: at most 12 endpoints, endpoint 5 is `x`\n", l)
+			continue
 		}
 		var body []byte
 		fmt.Sscanf(f[4], "%x", &body)
-		corpus = append(corpus, vfRdCase{f[0] == "1", f[1], na, w[:5], body})
+		corpus = append(corpus, vfRdCase{f[0] == "1", f[1], na, vfRdNorm(w), body})
 	}
 	type cfg struct {
 		post  bool
@@ -186,14 +250,17 @@ func TestVerifN2HRedirectBin(t *testing.T) {
 	}
 	cfgs := []cfg{{true, "rr", 1}, {false, "rr", 1}, {true, "all", 2}, {false, "rr", 2}, {true, "rr", 2}, {false, "all", 2}}
 	hist := map[string]int{}
-	follows := -1
+	client := -1
+	probes := 0
+	p307, p302 := 0, 0
 	id := 0
 	total := 0
 	for ci, c := range cfgs {
 		var cases []vfRdCase
 		if ci == 0 {
-			// probe: POST answered `307 Location: /e1`, /e1 answers 200 — a following client makes a second request
-			cases = append(cases, vfRdCase{true, "rr", 1, []string{"307>1", "200", "200", "200", "200"}, []byte("probe")})
+			// probes: a POST answered `307 Location: /e1` resp. `302 Location: /e1`, /e1 answers 200 — does a second request arrive?
+			cases = append(cases, vfRdCase{true, "rr", 1, vfRdNorm([]string{"307>1", "200"}), []byte("probe307")})
+			cases = append(cases, vfRdCase{true, "rr", 1, vfRdNorm([]string{"302>1", "200"}), []byte("probe302")})
 		}
 		for _, k := range corpus {
 			if k.post == c.post && k.mode == c.mode && k.naddr == c.naddr {
@@ -205,7 +272,7 @@ func TestVerifN2HRedirectBin(t *testing.T) {
 			if r.Intn(3) == 0 {
 				body = []byte(fmt.Sprintf("msg %d &=%%+/?", k))
 			}
-			cases = append(cases, vfRdCase{c.post, c.mode, c.naddr, vfRdGenWorld(r, k%3), body})
+			cases = append(cases, vfRdCase{c.post, c.mode, c.naddr, vfRdGenWorld(r, k%4, c.post), body})
 		}
 		src := vfNewStubNsqd()
 		// a short request timeout only bounds the damage of a tree whose client follows redirect loops for ever
@@ -241,6 +308,13 @@ func TestVerifN2HRedirectBin(t *testing.T) {
 			continue
 		}
 		counter := 0
+		type pend struct {
+			k    vfRdCase
+			line string
+			id   int
+			ctr  int
+		}
+		var held []pend // the probe cases are written once the client code is known
 		for _, k := range cases {
 			id++
 			stub.mu.Lock()
@@ -257,13 +331,6 @@ func TestVerifN2HRedirectBin(t *testing.T) {
 			stub.mu.Lock()
 			wire := append([]vfRdWire{}, stub.wire...)
 			stub.mu.Unlock()
-			if follows < 0 { // the probe case
-				follows = 0
-				if len(wire) > 1 {
-					follows = 1
-				}
-				fmt.Printf("REDIRECT-PROBE follows=%d wire=%d response=%s\n", follows, len(wire), resp)
-			}
 			var ws []string
 			for _, x := range wire {
 				ws = append(ws, fmt.Sprintf("%d:%s:%s:%s", x.ep, x.method, x.payload, x.status))
@@ -274,14 +341,35 @@ func TestVerifN2HRedirectBin(t *testing.T) {
 				}
 				return 0
 			}
-			out.Case(fmt.Sprintf("rd %d %s %d %d %d %d %s %s,x", follows, k.mode, k.naddr, b2i(k.post), counter, id, vfHex(k.body),
-				strings.Join(k.world, ",")), fmt.Sprintf("%s | %s", resp, strings.Join(ws, " ")))
+			emit := func(k vfRdCase, ctr, id int, line string) {
+				out.Case(fmt.Sprintf("rd %d %s %d %d %d %d %s %s", client, k.mode, k.naddr, b2i(k.post), ctr, id, vfHex(k.body),
+					strings.Join(k.world, ",")), line)
+			}
+			line := fmt.Sprintf("%s | %s", resp, strings.Join(ws, " "))
+			if probes < 2 { // the two probe cases
+				if probes == 0 {
+					p307 = b2i(len(wire) > 1)
+				} else {
+					p302 = b2i(len(wire) > 1)
+				}
+				probes++
+				held = append(held, pend{k, line, id, counter})
+				if probes == 2 {
+					client = []int{0, 3, 2, 1}[p307*2+p302]
+					fmt.Printf("REDIRECT-PROBE client=%d follows307=%d follows302=%d\n", client, p307, p302)
+					for _, h := range held {
+						emit(h.k, h.ctr, h.id, h.line)
+					}
+				}
+			} else {
+				emit(k, counter, id, line)
+			}
 			counter++
 			total++
 			first := "none"
 			if len(wire) > 0 {
 				first = wire[0].status
-				if strings.Contains(k.world[wire[0].ep%5], ">") && wire[0].ep < 5 {
+				if wire[0].ep < vfRdEndpoints && strings.Contains(k.world[wire[0].ep], ">") {
 					first += ">loc"
 				}
 			}
